@@ -79,8 +79,8 @@ static KV tokens(const string &line) {
 
 string Config::str() const {
   char b[400];
-  snprintf(b, sizeof b, "wbs=%zu mfs=%zu block=%zu restart=%d comp=%d filter=%d cache=%d mof=%d mmap=%d reuse=%d paranoid=%d cmp=%d verify=%d fillc=%d rlimit=%ld",
-           wbs, mfs, block, restart, comp, filter, cache, mof, mmap, reuse, paranoid, cmp, verify, fillc, rlimit);
+  snprintf(b, sizeof b, "wbs=%zu mfs=%zu block=%zu restart=%d comp=%d filter=%d cache=%d mof=%d mmap=%d reuse=%d paranoid=%d cmp=%d verify=%d fillc=%d rlimit=%ld%s",
+           wbs, mfs, block, restart, comp, filter, cache, mof, mmap, reuse, paranoid, cmp, verify, fillc, rlimit, sep ? " sep=1" : "");
   return b;
 }
 bool Config::parse(const string &s) {
@@ -91,7 +91,7 @@ bool Config::parse(const string &s) {
     else if (k == "restart") restart = (int)v; else if (k == "comp") comp = (int)v; else if (k == "filter") filter = (int)v;
     else if (k == "cache") cache = (int)v; else if (k == "mof") mof = (int)v; else if (k == "mmap") mmap = (int)v;
     else if (k == "reuse") reuse = (int)v; else if (k == "paranoid") paranoid = (int)v; else if (k == "cmp") cmp = (int)v;
-    else if (k == "verify") verify = (int)v; else if (k == "fillc") fillc = (int)v; else if (k == "rlimit") rlimit = v;
+    else if (k == "verify") verify = (int)v; else if (k == "fillc") fillc = (int)v; else if (k == "rlimit") rlimit = v; else if (k == "sep") sep = (int)v;
     else return false;
   }
   return true;
@@ -106,6 +106,7 @@ Config random_config(Rng &r) {
   c.comp = (int)r.below(2); c.filter = (int)r.below(3); c.cache = (int)r.below(3); c.mof = r.chance(0.3) ? 74 : 1000;
   c.mmap = (int)r.below(2); c.reuse = (int)r.below(2); c.paranoid = (int)r.below(2); c.cmp = r.chance(0.6) ? 0 : (int)r.range(1, 3);
   c.verify = (int)r.below(2); c.fillc = r.chance(0.8); c.rlimit = r.pick(rl);
+  c.sep = (c.cmp == 1 || c.cmp == 2) && r.chance(0.5);
   // now and then a value outside what lcdb accepts as is (it clamps), or at the far end of the legal range
   int x = (int)r.below(100);
   if (x < 3) c.mof = x == 0 ? 0 : x == 1 ? -1 : 1000000;
@@ -322,10 +323,39 @@ static int c_caseless(const ldb_comparator_t *, const ldb_slice_t *x, const ldb_
   for (size_t i = 0; i < n; i++) { int d = tolower(a[i]) - tolower(b[i]); if (d) return d < 0 ? -1 : 1; }
   return x->size < y->size ? -1 : x->size > y->size ? 1 : 0;
 }
+// separator / successor callbacks (the public type of the first argument is ldb_slice_t, the object is lcdb's
+// growable buffer: a callback may change bytes in place and shrink the size)
+static void rev_separator(const ldb_comparator_t *, ldb_slice_t *start, const ldb_slice_t *limit) {
+  // reverse order: start <= S < limit  means bytewise  limit < S <= start; the prefix of start that ends at the first
+  // differing byte qualifies when start's byte is the larger one
+  size_t n = start->size < limit->size ? start->size : limit->size, d = 0;
+  const unsigned char *a = (const unsigned char *)start->data, *b = (const unsigned char *)limit->data;
+  while (d < n && a[d] == b[d]) d++;
+  if (d < n && a[d] > b[d] && d + 1 < start->size) start->size = d + 1;
+}
+static void rev_successor(const ldb_comparator_t *, ldb_slice_t *key) { if (key->size > 1) key->size = 1; } // a prefix sorts after the key in reverse order
+static void len_separator(const ldb_comparator_t *, ldb_slice_t *start, const ldb_slice_t *limit) {
+  // (length, bytes) order: only keys of the same length can be separated by changing bytes in place
+  if (start->size != limit->size) return;
+  unsigned char *a = (unsigned char *)start->data; const unsigned char *b = (const unsigned char *)limit->data;
+  for (size_t d = 0; d < start->size; d++) {
+    if (a[d] == b[d]) continue;
+    if (a[d] < 0xff && a[d] + 1 < b[d]) { a[d]++; for (size_t q = d + 1; q < start->size; q++) a[q] = 0; }
+    return;
+  }
+}
+static void len_successor(const ldb_comparator_t *, ldb_slice_t *key) { unsigned char *a = (unsigned char *)key->data; for (size_t i = 0; i < key->size; i++) if (a[i] != 0xff) { a[i]++; for (size_t q = i + 1; q < key->size; q++) a[q] = 0; return; } }
+static ldb_comparator_t make_cmp(const char *name, int (*f)(const ldb_comparator_t *, const ldb_slice_t *, const ldb_slice_t *), void (*sep)(const ldb_comparator_t *, ldb_slice_t *, const ldb_slice_t *), void (*succ)(const ldb_comparator_t *, ldb_slice_t *)) {
+  ldb_comparator_t c = ldb_comparator(name, f, NULL);
+  c.shortest_separator = sep; c.short_successor = succ;
+  return c;
+}
+static ldb_comparator_t g_cmp_rev_cb = make_cmp("sim.Reverse", c_reverse, rev_separator, rev_successor);
+static ldb_comparator_t g_cmp_len_cb = make_cmp("sim.LengthFirst", c_lenfirst, len_separator, len_successor);
 static ldb_comparator_t g_cmp_rev = ldb_comparator("sim.Reverse", c_reverse, NULL);
 static ldb_comparator_t g_cmp_len = ldb_comparator("sim.LengthFirst", c_lenfirst, NULL);
 static ldb_comparator_t g_cmp_ci = ldb_comparator("sim.CaseInsensitive", c_caseless, NULL);
-const ldb_comparator_t *lcdb_comparator(int type) { return type == 1 ? &g_cmp_rev : type == 2 ? &g_cmp_len : type == 3 ? &g_cmp_ci : NULL; }
+const ldb_comparator_t *lcdb_comparator(int type, int cb) { return type == 1 ? (cb ? &g_cmp_rev_cb : &g_cmp_rev) : type == 2 ? (cb ? &g_cmp_len_cb : &g_cmp_len) : type == 3 ? &g_cmp_ci : NULL; }
 
 // ------------------------------------------------------------------ options / logger
 static void logv(void *, const char *fmt, va_list ap) {
@@ -351,7 +381,7 @@ void DbOptions::set(const Config &c, bool create) {
   o.write_buffer_size = c.wbs; o.max_file_size = c.mfs; o.block_size = c.block; o.block_restart_interval = c.restart;
   o.compression = c.comp ? LDB_SNAPPY_COMPRESSION : LDB_NO_COMPRESSION;
   o.max_open_files = c.mof; o.use_mmap = c.mmap; o.reuse_logs = c.reuse; o.paranoid_checks = c.paranoid;
-  o.comparator = lcdb_comparator(c.cmp);
+  o.comparator = lcdb_comparator(c.cmp, c.sep);
   if (bloom) { ldb_bloom_destroy(bloom); bloom = nullptr; }
   if (c.cmp == 3) o.filter_policy = NULL; // a bytewise bloom filter is not compatible with a comparator that equates different byte strings
   else if (c.filter == 1) o.filter_policy = ldb_bloom_default;
@@ -378,6 +408,41 @@ int db_get(ldb_t *db, const string &k, string *v, const ldb_snapshot_t *snap, in
   ldb_slice_t kk = S(k), out;
   int rc = ldb_get(db, &kk, &out, &ro);
   if (rc == LDB_OK) { v->assign((const char *)out.data, out.size); ldb_free(out.data); }
+  return rc;
+}
+
+// The same logical write through less common forms of the batch API.  mode 1: two batches joined with
+// ldb_batch_append; 2: one batch object written twice (ldb_write stamps a sequence into the caller's batch; writing
+// it again must apply the same updates again); 3: a batch reused after ldb_batch_reset; 4: as 0, after checking that
+// ldb_batch_iterate reproduces the update list.
+namespace { struct IterCollect { std::vector<std::pair<string, string>> puts_dels; };
+void ic_put(ldb_handler_t *h, const ldb_slice_t *k, const ldb_slice_t *v) { ((IterCollect *)h->state)->puts_dels.push_back({"P" + str_of(*k), str_of(*v)}); }
+void ic_del(ldb_handler_t *h, const ldb_slice_t *k) { ((IterCollect *)h->state)->puts_dels.push_back({"D" + str_of(*k), ""}); } }
+int db_write_mode(ldb_t *db, const std::vector<Upd> &ups, int sync, int mode) {
+  auto add = [](ldb_batch_t *b, const Upd &u) { ldb_slice_t k = S(u.key); if (u.del) ldb_batch_del(b, &k); else { string v = mkval(u.tag, u.len, u.fill); ldb_slice_t vv = S(v); ldb_batch_put(b, &k, &vv); } };
+  ldb_writeopt_t wo; wo.sync = sync;
+  int rc;
+  if (mode == 1) {
+    ldb_batch_t *a = ldb_batch_create(), *b = ldb_batch_create();
+    for (size_t i = 0; i < ups.size(); i++) add(i < ups.size() / 2 ? a : b, ups[i]);
+    ldb_batch_append(a, b);
+    rc = ldb_write(db, a, &wo);
+    ldb_batch_destroy(a); ldb_batch_destroy(b);
+    return rc;
+  }
+  ldb_batch_t *b = ldb_batch_create();
+  if (mode == 3) { Upd j; j.key = "junk-that-must-never-appear"; j.tag = 999999999; j.len = 5; add(b, j); ldb_batch_reset(b); }
+  for (auto &u : ups) add(b, u);
+  if (mode == 4) {
+    IterCollect ic; ldb_handler_t h; memset(&h, 0, sizeof h); h.state = &ic; h.put = ic_put; h.del = ic_del;
+    int irc = ldb_batch_iterate(b, &h);
+    bool same = irc == LDB_OK && ic.puts_dels.size() == ups.size();
+    for (size_t i = 0; same && i < ups.size(); i++) same = ic.puts_dels[i].first == (ups[i].del ? "D" : "P") + ups[i].key && (ups[i].del || ic.puts_dels[i].second == mkval(ups[i].tag, ups[i].len, ups[i].fill));
+    if (!same) violation("C04", "batch_iterate", "ldb_batch_iterate does not reproduce the %zu updates put into the batch (rc %s, %zu callbacks)", ups.size(), rcname(irc), ic.puts_dels.size());
+  }
+  rc = ldb_write(db, b, &wo);
+  if (mode == 2 && rc == LDB_OK) rc = ldb_write(db, b, &wo);
+  ldb_batch_destroy(b);
   return rc;
 }
 
